@@ -118,6 +118,18 @@ def oracle_sink(t):
                 a, b = cin, cout
                 cin = cout = 0
                 exp.append(["0"] + st() + [str(a), str(b)])
+        elif p[0] == "C":
+            # complete with NULL for the counters not selected by the mask: the counters restart all the same
+            if dead:
+                exp.append(None)
+                continue
+            mask = int(p[1])
+            if buf and len(content) % esz != 0:
+                exp.append(["-2"] + st() + ["-", "-"])
+            else:
+                a, b = cin, cout
+                cin = cout = 0
+                exp.append(["0"] + st() + [str(a) if mask & 1 else "-", str(b) if mask & 2 else "-"])
         elif p[0] == "d":
             if dead:
                 exp.append(None)
@@ -270,6 +282,14 @@ def oracle_source(t, notes):
                 a, b = cin, cout
                 cin = cout = 0
                 exp.append(["0"] + st() + [str(a), str(b)])
+        elif c == "C":
+            mask = int(q[1])
+            if buf and pos % esz != 0:
+                exp.append(["-2"] + st() + ["-", "-"])
+            else:
+                a, b = cin, cout
+                cin = cout = 0
+                exp.append(["0"] + st() + [str(a) if mask & 1 else "-", str(b) if mask & 2 else "-"])
         elif c == "m":
             if buf or mirror is not None:
                 exp.append(["!0"])
@@ -492,6 +512,8 @@ def gen_sink(rng, big=False):
                 cout = 0
             elif dev in "nf":
                 cout = 0
+            if op == "c" and rng.random() < 0.4:
+                op = "C:%d" % rng.randrange(0, 4)     # NULL for some of the counter pointers
             ops.append(op)
     d = "d"
     if dev in "nf" and not dead and rng.random() < 0.08:
@@ -609,7 +631,7 @@ def gen_source(rng, big=False, resize=False):
                     pos += pad
                     cout += pad
         elif r < 0.92:
-            ops.append("c")
+            ops.append("c" if rng.random() < 0.6 else "C:%d" % rng.randrange(0, 4))
             if dev in "nf" or pos % esz == 0:
                 cout = 0
         else:
